@@ -604,7 +604,8 @@ class CallGraph:
                 if "path" not in c:
                     continue
                 for cl in c.get("closures", []):
-                    self.edges[b.path].add(cl)
+                    if cl in facts.bodies:
+                        self.edges[b.path].add(cl)
                 tgt = c.get("resolved") or c["path"]
                 if tgt in facts.bodies:
                     self.edges[b.path].add(tgt)
@@ -635,7 +636,7 @@ class CallGraph:
         while st:
             x = st.pop()
             for y in self.edges.get(x, ()):
-                if y not in seen:
+                if y not in seen and y in self.f.bodies:
                     seen.add(y)
                     st.append(y)
         return seen
